@@ -617,7 +617,12 @@ func (x *Exec) merge(a, b *State) *State {
 	for k := range b.heap {
 		keys[k] = true
 	}
+	var ks []string
 	for k := range keys {
+		ks = append(ks, k)
+	}
+	sort.Strings(ks) // deterministic symbol numbering
+	for _, k := range ks {
 		ta, oka := a.heap[k]
 		tb, okb := b.heap[k]
 		if !oka {
